@@ -20,9 +20,9 @@ TEMPLATES = ["echo {1..%s}", "echo {%s..3}", "echo {a..z..%s}", "echo {1..5..%s}
              "shift %s", "break %s", "return %s", "exit %s", "ulimit -n %s", "umask %s", "printf '%%%sd' 1", "printf '%%.%sf' 1", "read -n %s x </dev/null", "history %s", "declare -i x=%s; echo $x",
              "x=é; echo ${x:%s}", "declare -c x=éa%s; echo $x", "echo ${x:-%s}", "wait %%%s", "fc -l %s", "echo $'\\x%s'", "echo $'\\u%s'", "printf '\\x%s'",
              "cd -%s", "pushd +%s", "dirs -%s", "trap : %s", "let x=%s", "(( x = %s ))", "[[ 1 -lt %s ]]", "[ 1 -lt %s ]", "test -t %s", "echo ${!x%s}", "echo ${x^^%s}", "getopts %s o", "mapfile -n %s a </dev/null",
-             "mapfile -s %s a </dev/null", "mapfile -O %s a </dev/null", "read -t %s x </dev/null", "read -u %s x", "echo ${#%s}", "for ((i=%s; i<1; i++)); do :; done", "echo {%s,}", "hash -p /bin/ls %s",
+             "mapfile -s %s a </dev/null", "mapfile -O %s a </dev/null", "read -t %s x </dev/null", "read -u %s x", "echo ${#%s}", "for ((i=%s; i<1 && i>-3; i++)); do :; done", "echo {%s,}", "hash -p /bin/ls %s",
              "printf 'a\\nb\\n' | { mapfile -O %s a; echo ${#a[@]}; }", "a=([%s]=x y); echo ${#a[@]}", "a=(x); a+=([%s]=y z); echo ${!a[@]}", "declare -A m=([%s]=x); echo ${m[%s]}".replace("%s]}", "k]}"),
-             "printf '%%s\\c%%s' %s y z", "printf 'a\\c%%s' %s y", "printf '%%b' 'a\\c' %s", "echo -e 'a\\c' %s", "printf '%%*d' %s 1", "printf '%%.*s' %s abc", "printf '%%(%%Y)T' %s", "sleep 0 %s",
+             "printf '%%s\\c%%s' %s y z", "printf 'a\\c%%s' %s y", "printf '%%b' 'a\\c' %s", "echo -e 'a\\c' %s", "printf '%%*d' %s 1", "printf '%%.*s' %s abc", "printf '%%(%%Y)T' %s", 
              "kill -l %s", "exit %s 1", "echo ${x:%s:%s}".replace("%s:%s", "%s:1"), "read -N %s x <<< abc", "read -d '' -n %s x <<< abc", "printf -v 'a[%s]' x; echo ${#a[@]}", "unset 'a[%s]'", "a=(1 2); echo ${a[@]:%s}",
              "set -- a b c; echo ${@:%s}", "echo ${*:%s:2}", "x=abc; echo ${x: %s: %s}".replace(": %s}", ": 1}"), "type -a %s", "enable -n %s", "caller %s", "bind -r %s", "suspend %s", "times %s", "getopts ab o -%s"]
 # execution modes x small bodies that nest (subshell, substitution, function, eval, source, pipeline ...): tracing, verbose echo, option sets
